@@ -4,7 +4,7 @@
 From Coq Require Import String.
 From Coq Require Import List Bool Arith NArith ZArith.
 Import ListNotations.
-Require Import PyLib PyLib2 Str IpText Memo IpModel TextModel G_fn_ip3 RefJun RefIpCommon RefIo RefIpLine RefDump.
+Require Import PyLib PyLib2 Str IpText Memo IpModel TextModel G_fn_ip3 RefJun RefIpCommon RefIoBase RefIpLine RefDump.
 Require MemoProofs.
 
 (* dump_to_file translated from the source writes the model's dump: for an anonymizer in ANY state the memo invariant describes (every state reachable
